@@ -1,11 +1,12 @@
 (* C12 -- aggregation routines return valid partitions.  Property theorems only.  Naive
-   aggregation: for EVERY graph (any number of vertices).  The others: bounded -- complete
+   and standard aggregation: for EVERY graph (any number of vertices; standard: symmetric pattern).
+   Pairwise and the finer statements about standard aggregation: bounded -- complete
    enumeration of the symmetric graphs on <= 4 vertices, with and without stored diagonal;
    the bound is part of each statement. *)
 From Coq Require Import ZArith List Bool.
 Import ListNotations.
 Require Import PV.Model.GraphAlg PV.Model.Aggregate PV.Proofs.GraphSpec PV.Proofs.GraphBounded PV.Proofs.AggBounded.
-Require Import PV.Proofs.NaiveAggProofs.
+Require Import PV.Proofs.NaiveAggProofs PV.Proofs.StdAggPart.
 Open Scope Z_scope.
 
 (* naive aggregation, every graph with N vertices whose column indices are in range (symmetric or
@@ -28,6 +29,26 @@ Print Assumptions C12_naive_aggregation_partition.
 Example C12_naive_example :
   naive_aggregation 3 [0; 2; 5; 7] [0; 1; 0; 1; 2; 1; 2] [-7; -7; -7] = ([1; 1; 2], [0; 2; -7], 2).
 Proof. vm_compute. reflexivity. Qed.
+
+(* standard aggregation, every graph with N vertices and a SYMMETRIC pattern (any N; self loops, isolated
+   vertices, any row order): ids in [-1, c) after the final shift; id -1 exactly for the vertices without
+   off-diagonal connection; aggregate a contains its root y[a] (so no aggregate is empty and roots are
+   distinct); every member is the root, a neighbour of the root, or a neighbour of such a member of the
+   same aggregate (connected, radius <= 2) *)
+Theorem C12_standard_aggregation_partition : forall (N : nat) (Ap Aj y0 : list Z),
+  (forall i, 0 <= i < Z.of_nat N -> forall j, In j (nbrs Ap Aj i) -> 0 <= j < Z.of_nat N) ->
+  (forall i j, 0 <= i < Z.of_nat N -> In j (nbrs Ap Aj i) -> In i (nbrs Ap Aj j)) ->
+  length y0 = N ->
+  let n := Z.of_nat N in
+  let '(x, y, c) := standard_aggregation n Ap Aj y0 in
+  length x = N /\ 0 <= c <= n /\
+  (forall k, 0 <= k < n -> -1 <= get x k < c) /\
+  (forall k, 0 <= k < n -> (get x k = -1 <-> isolated Ap Aj k)) /\
+  (forall a, 0 <= a < c -> 0 <= get y a < n /\ get x (get y a) = a) /\
+  (forall k, 0 <= k < n -> 0 <= get x k ->
+     near Ap Aj (get y (get x k)) k \/ exists j, In j (nbrs Ap Aj k) /\ near Ap Aj (get y (get x k)) j /\ get x j = get x k).
+Proof. exact (fun N Ap Aj y0 H1 H2 Hy => standard_aggregation_partition N Ap Aj H1 H2 y0 Hy). Qed.
+Print Assumptions C12_standard_aggregation_partition.
 
 (* standard aggregation: a partition with named roots; unaggregated <-> no off-diagonal
    connection; every aggregate connected; the third pass never opens an aggregate *)
